@@ -35,6 +35,7 @@ def corpus():
     ]
 
 
+classify_corr = B.classify_corr
 nontrivial = B.nontrivial_default
 features = B.features_counted
 describe = B.describe_short
